@@ -29,14 +29,18 @@ LEVEL_TEXT = ("Proved (33 obligations). RecordTensor level (every number type, a
               "constructor then clear), red_setters_clear_eq_ctor (reducer with record, decay, inplace, _initial: any sequence "
               "of assignments, observations and clears then clear = constructor, exactly), red_reachable_consistent, "
               "conn_forwards / conn_setters_clear_eq_ctor / conn_setters_clear_eq_own_ctor (assigning through the connection = "
-              "assigning on the synapse = constructing with that configuration; replacement synapse reported back), frames "
+              "assigning DIRECTLY on the owned synapse (both routes are operations of the model, in any interleaving) = "
+              "constructing with that configuration; the connection keeps no copy of dt / batch size / delay; replacement "
+              "synapse reported back), frames "
               "(setter_frame, syn_setter_frame, red_setter_frame, conn_setter_frame), the size-only model (setters_eq_ctor, "
               "tred_setters_ok). Refuted variants of the three repaired setters: old_delay_setter_refuted, "
               "old_duration_setter_refuted (value stored in the step-time field, 0 refused), old_synapse_setter_refuted. "
               "Every model function is evaluated by vm_compute and compared with the real objects (record sizes, pointers, "
               "shapes, constraints, reported attributes, cleared contents) after random setter sequences. The behavioural half "
               "(same OUTPUTS from a cleared state; 8 neurons / 4 synapses / 4 connections / 6 reducers / bare records) is decided "
-              "on the implementation by the relational oracle: setter path vs freshly constructed component.")
+              "on the implementation by the relational oracle: setter path vs freshly constructed component, and by the "
+              "ownership-chain oracle (Serial layer -> connection -> synapse + neuron: every attribute through every route, all "
+              "getters of all objects after each assignment vs a fresh chain, then forward steps).")
 LEVEL_NOTE = ("Trusted: Coq kernel + stdlib real axioms for the real-number theorems (reported; the RecordTensor and batch levels "
               "are closed under the global context); translator (record-size expression, 3 occurrences must agree); the C13 models "
               "C13/Shaped.v, C13/Resize.v and the C01 ring model (imported, proved about in C13/C01); hand-written models "
@@ -90,6 +94,63 @@ def gen_rel_cases(rng, n):
         keep = attrs[: rng.randint(1, len(attrs))]
         cases.append({"family": fam, "specA": spec, "target": {a: target[a] for a in keep}, "order": keep,
                       "T": rng.randint(12, 25), "seed": seed, "warm": warm})
+    return cases
+
+
+CONN_ROUTES = ["layer.connection", "layer.cell.connection", "layer.connections[name]"]
+SYN_ROUTES = ["layer.synapse", "layer.connection.synapse", "layer.cell.connection.synapse"]
+NEU_ROUTES = ["layer.neuron", "layer.cell.neuron", "layer.neurons[name]"]
+
+
+def gen_chain_cases(rng, n):
+    """Serial layer -> connection -> synapse (+ the layer's neuron): dt / batchsz through the connection AND directly on its
+    synapse, delay / inplace on the synapse, dt / batchsz on the neuron, replacement synapses - every route, interleaved"""
+    cases = []
+    for i in range(n):
+        dt = rng.choice(DTS)
+        cls = ["LinearDense", "LinearDirect", "LinearLateral", "Conv2D"][i % 4]
+        delayed = rng.random() < 0.65
+        spec = {"conn": dict(c11.conn_spec(rng, cls, dt, 2 * dt if delayed else None), batch=rng.choice([1, 2])),
+                "neuron": c11.NEURONS[(i // 4) % 8]}
+        cur = {"dt": dt, "delay": 2 * dt if delayed else 0.0, "batch": spec["conn"]["batch"]}
+        ops = []
+        for _ in range(rng.randint(1, 7)):
+            k = rng.choice(["dt", "batchsz", "batchsz", "batchsz", "delay", "inplace", "synapse", "ndt", "nbatchsz"])
+            x = rng.choice(DTS)
+            if k == "dt":
+                v = rng.choice(BAD_DT) if rng.random() < 0.1 else x
+                ops.append([rng.choice(CONN_ROUTES + SYN_ROUTES), "dt", v])
+                cur["dt"] = v if v > 0 else cur["dt"]
+            elif k == "batchsz":
+                v = rng.choice([1, 2, 3, 4, 0])
+                ops.append([rng.choice(CONN_ROUTES + SYN_ROUTES), "batchsz", v])
+                cur["batch"] = v if v > 0 else cur["batch"]
+            elif k == "delay":
+                if not delayed:
+                    continue
+                v = -0.5 if rng.random() < 0.1 else rng.choice([0.0, x, 2.5 * x, 3 * x])
+                ops.append([rng.choice(SYN_ROUTES), "delay", v])
+                cur["delay"] = v if v >= 0 else cur["delay"]
+            elif k == "inplace":
+                ops.append([rng.choice(SYN_ROUTES), "inplace", rng.random() < 0.5])
+            elif k == "synapse":
+                v = {"cls": rng.choice(c11.SYNAPSES), "dt": cur["dt"] if rng.random() < 0.6 else x,
+                     "delay": (cur["delay"] if rng.random() < 0.6 else rng.choice([0.0, 2 * x])) if delayed else 0.0,
+                     "batch": cur["batch"] if rng.random() < 0.5 else rng.choice([1, 2, 3]), "inplace": rng.random() < 0.5}
+                ops.append([rng.choice(CONN_ROUTES), "synapse", v])
+                cur = {"dt": v["dt"], "delay": v["delay"], "batch": v["batch"]}
+            elif k == "ndt":
+                ops.append([rng.choice(NEU_ROUTES), "dt", x])
+            else:
+                ops.append([rng.choice(NEU_ROUTES), "batchsz", rng.choice([1, 2, 3, 4])])
+        if not ops:
+            ops.append([rng.choice(SYN_ROUTES), "batchsz", 3])
+            cur["batch"] = 3
+        if rng.random() < 0.8:      # let the neuron follow, so that the chain can be stepped
+            ops.append([rng.choice(NEU_ROUTES), "batchsz", cur["batch"]])
+        cases.append({"family": "chain", "spec": spec, "specA": {"cls": cls + "+" + spec["neuron"]}, "ops": ops,
+                      "order": [o[1] for o in ops], "T": rng.randint(8, 16), "seed": rng.randrange(1 << 30),
+                      "warm": rng.choice([0, 0, 3])})
     return cases
 
 
@@ -231,8 +292,8 @@ def gen_conn_model(rng, i):
     spec = dict(c11.conn_spec(rng, cls, dt, delay), batch=rng.choice([1, 2]))
     cur = {"dt": dt, "delay": 0.0 if delay is None else delay, "batch": spec["batch"]}
     ops = []
-    for _ in range(rng.randint(1, 6)):
-        k = rng.choice(["dt", "batchsz", "batchsz", "synapse", "step"])
+    for _ in range(rng.randint(1, 7)):
+        k = rng.choice(["dt", "batchsz", "batchsz", "syn", "syn", "synapse", "step"])
         if k == "dt":
             v = rng.choice(BAD_DT) if rng.random() < 0.15 else rng.choice(DTS)
             ops.append(["dt", v])
@@ -243,6 +304,16 @@ def gen_conn_model(rng, i):
             ops.append(["batchsz", v])
             if v > 0:
                 cur["batch"] = v
+        elif k == "syn":
+            # the same attributes (and the synapse's own) assigned directly on the owned synapse
+            o = syn_ops(rng, 1, steps=False)[0]
+            ops.append(["syn"] + o)
+            if o[0] == "dt" and o[1] > 0:
+                cur["dt"] = o[1]
+            elif o[0] == "delay" and o[1] >= 0:
+                cur["delay"] = o[1]
+            elif o[0] == "batchsz" and o[1] > 0:
+                cur["batch"] = o[1]
         elif k == "synapse":
             if rng.random() < 0.7:
                 o = ["synapse", rng.choice(c11.SYNAPSES), cur["dt"], cur["delay"], cur["batch"], rng.random() < 0.5]
@@ -343,6 +414,8 @@ def q_model(c, r=None):
                 ops.append(f"KDt FN {fl(o[1])}")
             elif o[0] == "batchsz":
                 ops.append(f"KBatch FN ({int(o[1])})")
+            elif o[0] == "syn":
+                ops.append(f"KOnSyn FN ({q_sop(o[1:])})")
             elif o[0] == "synapse":
                 ops.append(f"KSyn FN {q_zs(SYN_DS[o[1]])} {fl(o[2])} {fl(o[3])} ({int(o[4])}) {F.coq_bool(o[5])}")
         delay = "None" if s["delay"] is None else f"(Some {fl(s['delay'])})"
@@ -534,7 +607,7 @@ def cmp_model(c, obs, tree):
 def run(ctx):
     rng = random.Random(ctx["seed"])
     quick = ctx["tier"] == "quick"
-    rel = gen_rel_cases(rng, 250 if quick else 3000)
+    rel = gen_rel_cases(rng, 250 if quick else 3000) + gen_chain_cases(rng, 80 if quick else 1000)
     mod = gen_model_cases(rng, 80 if quick else 800) + gen_ext_model_cases(rng, 200 if quick else 2500)
     k = 8
     allc = rel + mod
@@ -574,7 +647,11 @@ def run(ctx):
         "distinct_nontrivial": len({repr(c) for c in rel if len(c["order"]) >= 1}) + len({repr(c) for c in mod}),
         "rule": "relational cases: (class, configuration A, 1-4 attribute assignments in random order, optional warm-up steps) compared "
                 "with a fresh component of the target configuration (getters, frame after every assignment, internal history sizes, "
-                "12-25 steps of outputs); model cases: random setter sequences whose resulting history sizes/decay are compared with "
+                "12-25 steps of outputs); ownership-chain cases: Serial layer -> connection -> synapse + neuron, every attribute assigned "
+                "through every route (connection setter, the owned synapse's own setter via layer.synapse / connection.synapse / "
+                "cell.connection.synapse, the layer's neuron, replacement synapses) in random interleavings, after EACH assignment "
+                "all getters of all objects of the chain compared with a freshly constructed chain of the configuration asked for, "
+                "then forward steps (delayed connections included); model cases: random setter sequences whose resulting history sizes/decay are compared with "
                 "the Coq model evaluated in binary64; extended model cases (RecordTensor / reducer / synapse with contents / "
                 "connection / neuron batch size): random setter sequences incl. refused values, observations, clears and steps, "
                 "every intermediate state (sizes, shapes, constraints, reported attributes) and the final cleared state incl. "
